@@ -498,4 +498,60 @@ theorem mpf_add_zero (prec : ℕ) (hp : 1 ≤ prec) (u v : F) (hu : OpWF u) (hv 
 example : add 2 false false ⟨2, 2, 1, [B - 1, B - 1]⟩ ⟨2, 1, 0, [1]⟩ = ⟨2, 3, 2, [0, 0, 1]⟩ := by decide
 example : add 2 false false ⟨2, 2, 5, [7, 9]⟩ ⟨2, 1, 3, [4]⟩ = ⟨2, 2, 5, [7, 9]⟩ := by decide
 
+
+/-! ### mpf_div, mpf_div_ui, mpf_ui_div, mpf_set_q
+
+The quotient is the truncated integer quotient of a dividend padded / chopped so that it has prec+1 limbs
+(div.c:92-103); it is within one unit of its last limb, and at least B^(prec−1). -/
+
+/-- mpf_div of non-zero operands: returns normally; format rules; error < 2^(2−p)·|u/v|; exact if u/v fits in p bits. -/
+theorem mpf_div_err (prec : ℕ) (hp : 1 ≤ prec) (u v : F) (hu : OpWF u) (hv : OpWF v)
+    (hu0 : u.size ≠ 0) (hv0 : v.size ≠ 0) :
+    ∃ r, div prec u v = .ok r ∧ WF r ∧
+      |toQ r - toQ u / toQ v| < eps prec * |toQ u / toQ v| ∧
+      (Fits (toQ u / toQ v) (PREC_TO_BITS prec) → toQ r = toQ u / toQ v) :=
+  div_spec prec hp u v hu hv hu0 hv0
+
+/-- division by zero raises; a zero dividend gives an exact, well-formed zero -/
+theorem mpf_div_zero (prec : ℕ) (u v : F) :
+    (v.size = 0 → div prec u v = .div0) ∧ (v.size ≠ 0 → u.size = 0 → div prec u v = .ok (zero prec)) := by
+  unfold div
+  exact ⟨fun h => by rw [if_pos h], fun h1 h2 => by rw [if_neg h1, if_pos h2]⟩
+
+/-- mpf_div_ui (0 < w < 2^64). -/
+theorem mpf_div_ui_err (prec : ℕ) (hp : 1 ≤ prec) (u : F) (w : ℕ) (hu : OpWF u) (hu0 : u.size ≠ 0)
+    (hw0 : w ≠ 0) (hwB : w < B) :
+    ∃ r, div_ui prec u w = .ok r ∧ WF r ∧
+      |toQ r - toQ u / w| < eps prec * |toQ u / w| ∧
+      (Fits (toQ u / w) (PREC_TO_BITS prec) → toQ r = toQ u / w) := by
+  rw [div_ui_eq_div prec u w hw0, ← toQ_ofLimb w]
+  exact div_spec prec hp u _ hu (OpWF_ofLimb w hw0 hwB) hu0 (by simp [ofLimb])
+
+/-- mpf_ui_div (0 < w < 2^64, v ≠ 0). -/
+theorem mpf_ui_div_err (prec : ℕ) (hp : 1 ≤ prec) (w : ℕ) (v : F) (hv : OpWF v) (hv0 : v.size ≠ 0)
+    (hw0 : w ≠ 0) (hwB : w < B) :
+    ∃ r, ui_div prec w v = .ok r ∧ WF r ∧
+      |toQ r - w / toQ v| < eps prec * |w / toQ v| ∧
+      (Fits (w / toQ v) (PREC_TO_BITS prec) → toQ r = w / toQ v) := by
+  rw [ui_div_eq_div prec w v hw0 hv, ← toQ_ofLimb w]
+  exact div_spec prec hp _ v (OpWF_ofLimb w hw0 hwB) hv (by simp [ofLimb]) hv0
+
+/-- mpf_set_q (num ≠ 0, den > 0; the fraction need not be in lowest terms). -/
+theorem mpf_set_q_err (prec : ℕ) (hp : 1 ≤ prec) (num : ℤ) (den : ℕ) (hn : num ≠ 0) (hd : den ≠ 0) :
+    WF (set_q prec num den) ∧
+    |toQ (set_q prec num den) - (num : ℚ) / den| < eps prec * |(num : ℚ) / den| ∧
+    (Fits ((num : ℚ) / den) (PREC_TO_BITS prec) → toQ (set_q prec num den) = (num : ℚ) / den) := by
+  obtain ⟨r, h1, h2, h3, h4⟩ := div_spec prec hp (ofInt num) (ofInt den) (OpWF_ofInt _) (OpWF_ofInt _)
+    (ofInt_size_ne hn) (ofInt_size_ne (by omega))
+  rw [set_q_eq_div prec num den hn hd] at h1
+  injection h1 with h1
+  rw [← h1] at h2 h3 h4
+  rw [toQ_ofInt, toQ_ofInt] at h3 h4
+  exact ⟨h2, by simpa using h3, by simpa using h4⟩
+
+-- non-vacuity: 5 / -7 with a 2-limb precision; 1/3
+example : div 2 ⟨2, 1, 1, [5]⟩ ⟨2, -1, 1, [7]⟩ = .ok ⟨2, -2, 0, [0x6db6db6db6db6db6, 0xb6db6db6db6db6db]⟩ := by decide
+example : ui_div 2 1 ⟨2, 1, 1, [3]⟩ = .ok ⟨2, 2, 0, [0x5555555555555555, 0x5555555555555555]⟩ := by decide
+example : div 2 ⟨2, 1, 1, [5]⟩ ⟨2, 0, 0, []⟩ = .div0 := by decide
+
 end Mpir.Mpf
